@@ -36,7 +36,7 @@ pub fn run_code(args: &[&str]) -> String {
     match args[0] {
         "TYPE" => {
             let t = TYPE::from(c);
-            format!("{} {:x}", ty_tok(t), u16::from(t))
+            format!("{} {:x} {:x}", ty_tok(t), u16::from(t), u16::from(QTYPE::from(t)))
         }
         "CLASS" => match CLASS::try_from(c) {
             Ok(k) => format!("OK {:?} {:x}", k, k as u16),
